@@ -436,7 +436,7 @@ def tasks_for(tier):
         ts.append(('history', bits, False, False))
         if tier == 'thorough' or bits in ((0, 1), (1, 1)):
             ts.append(('history', bits, True, False))
-        if tier == 'thorough':
+        if tier == 'thorough' or bits in ((1, 0), (1, 1)):
             ts.append(('history', bits, False, True))
     ts.append(('fp', False, 300))
     if tier == 'thorough':
